@@ -570,7 +570,18 @@ def r17_4_epilogue(rep, facts):
                     # the captured id is the function's id parameter
                     ups = [ir.peel(v) for (_, v) in cls[0][3]]
                     mapped = mapped and any(u[0] == 'param' for u in ups)
-            if not (direct or mapped):
+            patched = False
+            if not direct and not mapped and d[0] == 'call' and d[1] == "protocol::RecordHeader::to_bytes" and hdr and ir.peel(hdr[0][2][1])[0] == 'param':
+                # one header built before the loop (with the id parameter) whose record type is overwritten per stream: the last write of a
+                # local's `rtype` field before this append, on this path, stores the current item of the `streams` iterator
+                pos = r.nodes.index(c[2]) if c[2] in r.nodes else None
+                last_w = None
+                for (pl, val, nd, s_) in r.writes:
+                    if pl[0] == 'field' and pl[2] == 'rtype' and ir.peel(pl[1])[0] != 'param' and nd in r.nodes and pos is not None and r.nodes.index(nd) <= pos:
+                        last_w = val
+                if last_w is not None and any(y[0] == 'call' and 'Iterator' in y[1] and y[1].endswith("::next") for y in ir.walk(last_w)):
+                    patched = True
+            if not (direct or mapped or patched):
                 okh = False
         # the EndRequest and the stream headers must use the same id parameter
         ids = set()
